@@ -469,8 +469,9 @@ def rule_R9(P, rep):
                 x = p_
                 continue
             if k == "bin" and not pn.get("asg") and pn["op"] in ("*", "/"):
-                if f == "tv_sec" and pn["op"] == "*" and "double" not in pn.get("t", "double") and "float" not in pn.get("t", ""):
-                    bad = "integer *"       # seconds scaled in an integer type overflow for far deadlines
+                if "double" not in pn.get("t", "double") and "float" not in pn.get("t", ""):
+                    # scaled in an integer type: seconds overflow for far deadlines, nanoseconds lose their fraction
+                    bad = "integer " + pn["op"]
                     break
                 x = p_
                 continue
